@@ -729,6 +729,46 @@ func keOracle(r *rand.Rand, n int, tier string, infile string) (cases int, fails
 			bad("C03 a party holding only key 3 brought a responder to usable with the victim's key 0 as its remote key")
 		}
 	}
+	// C14 / C07: many callers blocked on one channel whose peer does not answer (p2pkeswarm.Tell and LookupPublicKey to
+	// an unreachable peer): their contexts end together; every call returns its context's error, and afterwards the
+	// channel counts no waiting caller (the count decides whether a given-up handshake is started again). Under the race
+	// detector the bookkeeping of the waiters is what is looked at.
+	concurrentWaitersCase := func() {
+		cases++
+		var mu sync.Mutex
+		c := p2pke.NewChannel(p2pke.ChannelConfig{Registry: x509.DefaultRegistry(), PrivateKey: keKeys[0], Logger: zap.NewNop(),
+			Send:             func(b []byte) { mu.Lock(); mu.Unlock() },
+			AcceptKey:        func(pk *x509.PublicKey) bool { return true },
+			KeepAliveTimeout: 1e5 * time.Hour, HandshakeBackoff: 1e5 * time.Hour, RekeyAfterTime: 1e5 * time.Hour, RejectAfterTime: 1e5 * time.Hour})
+		defer c.Close()
+		const workers = 16
+		for round := 0; round < 40; round++ {
+			ctx, cancel := context.WithCancel(context.Background())
+			errs := make(chan error, workers)
+			for w := 0; w < workers; w++ {
+				go func() { errs <- c.Send(ctx, p2p.IOVec{[]byte("to nobody")}) }()
+			}
+			for spin := 0; spin < 2000 && c.VerifWaiting() < workers; spin++ {
+				time.Sleep(50 * time.Microsecond)
+			}
+			cancel()
+			for w := 0; w < workers; w++ {
+				select {
+				case err := <-errs:
+					if err == nil {
+						bad("C07 Send on a channel whose peer never answers returned nil")
+					}
+				case <-time.After(2 * time.Second):
+					bad("C07 a Send blocked on a channel is still blocked 2 s after its context was cancelled")
+					return
+				}
+			}
+			if n := c.VerifWaiting(); n != 0 {
+				bad("C14 %d callers waited on one channel and all have returned (their shared context was cancelled), but the channel still counts %d waiting callers", workers, n)
+				return
+			}
+		}
+	}
 	// C02: concurrent Sends on one session (the Session type is exported and used by several goroutines of a swarm):
 	// no two ciphertexts under the same key and counter, and the peer accepts every one of them exactly once.
 	concurrentSendCase := func() {
@@ -1261,6 +1301,7 @@ func keOracle(r *rand.Rand, n int, tier string, infile string) (cases int, fails
 			sigReplayCase()
 			crossPurposeCase()
 			concurrentSendCase()
+			concurrentWaitersCase()
 			rekeyHijackCase()
 		}
 	}
